@@ -1,7 +1,7 @@
 //! Shrinks a failing scenario while the same (property, rule) still fails. Every candidate is
 //! one call of `checks::check`, so a few thousand attempts are cheap.
 
-use crate::checks::{check, Env, Prop, Stats};
+use crate::checks::{check_isolated, Env, Prop, Stats};
 use crate::history::Script;
 use crate::scenario::Scenario;
 use simcore::doc::{Doc, Path, Step};
@@ -9,7 +9,7 @@ use simcore::docgen::all_paths;
 
 fn still_fails(prop: Prop, env: &Env, scn: &Scenario, rule: &str) -> bool {
     let mut st = Stats::default();
-    check(prop, env, scn, &mut st).iter().any(|f| f.rule == rule)
+    check_isolated(prop, env, scn, &mut st).iter().any(|f| f.rule == rule)
 }
 
 fn remove_at(doc: &Doc, path: &Path) -> Option<Doc> {
